@@ -250,7 +250,9 @@ func (option *Option) Set(value *string) error {
 	option.preventDefault = true
 	option.clearReferenceBeforeSet = false
 
-	if len(option.Choices) != 0 {
+	// Options without an argument (value == nil) have nothing to compare
+	// against the list of choices
+	if value != nil && len(option.Choices) != 0 {
 		found := false
 
 		for _, choice := range option.Choices {
